@@ -1,5 +1,6 @@
 \* C02: all interleavings of one writer operation of 4 statements (one injected fault, one retry),
-\* one reader transaction of 3 reads and one crash.  checks/c02.py also runs this with Wal = FALSE
+\* one reader transaction of 3 reads and one crash; pre-states in which the operation refuses by itself; the
+\* uninterrupted run given or learnt from a first run.  checks/c02.py also runs this with Wal = FALSE
 \* and with each Mutant (every mutant must break an invariant).
 SPECIFICATION Spec
 CONSTANTS
@@ -7,5 +8,6 @@ CONSTANTS
   MaxReads = 3
   Wal = TRUE
   Mutant = "none"
-INVARIANTS TypeOK Atomic OneCommit OkMeansComplete FaultMeansErrOrComplete NoDanglingTx Snapshot CrashAtomic RetryConverges Durable
+  Sound <- MCSound
+INVARIANTS TypeOK Atomic OneCommit OkMeansComplete FaultMeansErrOrComplete NoDanglingTx Snapshot CrashAtomic RetryConverges Durable Consistent
 CHECK_DEADLOCK FALSE
